@@ -270,6 +270,7 @@ package protocol
 //@   property C03 C01 C13 C14
 //@   mode int
 //@   noframe
+//@   preserves ghost(added), Session.isClient, Session.downloadBytes
 //@   wraps_signed
 //@   requires s != nil && s.sendQueue != nil && s.recvBuf != nil && s.recvQueue != nil && ghost(sq) == s.sendQueue && ghost(rq) != s.sendQueue
 //@   requires 1280 <= s.mtu && s.mtu <= 1500
@@ -287,6 +288,23 @@ package protocol
 //@   loop 3:
 //@     invariant ghost(sqrem) >= 1 && s.nextRecv.v == old(s.nextRecv.v)
 //@     invariant mathint(s.nextSend.v) == (mathint(old(s.nextSend.v)) + mathint(nFragment)) % 4294967296
+//@
+//@ // Accounting (C19): every byte a server session accepts from its application - the n
+//@ // it returns, also when a later chunk fails - is added once to the user's download counter.
+//@ func (s *Session) Write(b []byte) (n int, err error)
+//@   property C19
+//@   mode int
+//@   partial
+//@   posts_only
+//@   noframe
+//@   requires s != nil
+//@   ensures !old(s.isClient) && old(s.downloadBytes) != nil ==> ghost(added) == old(ghost(added)) + mathint(n)
+//@   ensures !old(s.isClient) && old(s.downloadBytes) == nil ==> ghost(added) == old(ghost(added))
+//@   loop 1:
+//@     invariant 0 <= n && n + len(b) == old(len(b))
+//@     invariant ghost(added) == old(ghost(added))
+//@     invariant s.isClient == old(s.isClient)
+//@     invariant s.downloadBytes == old(s.downloadBytes)
 //@
 //@ // Dispatch of one received segment. Direction check (C04): a segment type that only
 //@ // the local side itself sends (e.g. a reflected copy of its own data) is refused
